@@ -251,6 +251,9 @@ type Params struct {
 	SS   int `json:"ss"`
 	CMMS int `json:"cmms"`
 	SMMS int `json:"smms"`
+	// OW: the one-way style - the client application hands the request to WriteMessage and returns; whatever comes back
+	// reaches the client connection's handler (e2e modes only)
+	OW bool `json:"ow"`
 }
 
 type Act struct {
